@@ -23,6 +23,20 @@ bool PS_ComputeOriginalValues(void *ps, const int32_t *in_corr, int32_t *out_dat
 __CPROVER_requires(size >= 1 && num_components >= 1 && size % num_components == 0 && __CPROVER_w_ok(out_data, (size_t)size * 4) && __CPROVER_r_ok(in_corr, (size_t)size * 4))
 __CPROVER_assigns(__CPROVER_object_whole(out_data));
 
+/* std::vector<PointIndex>::resize */
+void pid_resize(struct LinearSequencer *self, size_t n)
+__CPROVER_requires(n <= self->out_point_ids.cap)
+__CPROVER_ensures(self->out_point_ids.size == n)
+__CPROVER_assigns(self->out_point_ids.size, __CPROVER_object_whole(self->out_point_ids.data));
+/* the sequence of the sequential codecs: refused for a negative count, otherwise exactly num_points ids, id k at position k */
+bool LinearSequencer_GenerateSequenceInternal(struct LinearSequencer *self)
+__CPROVER_requires(__CPROVER_is_fresh(self, sizeof(struct LinearSequencer)) && self->out_point_ids.cap >= 1 && self->out_point_ids.cap <= ((size_t)1 << 31) && \
+                   (self->num_points_ < 0 || (size_t)self->num_points_ <= self->out_point_ids.cap) && __CPROVER_is_fresh(self->out_point_ids.data, self->out_point_ids.cap * 4))
+__CPROVER_ensures(__CPROVER_return_value == (self->num_points_ >= 0))
+__CPROVER_ensures(!__CPROVER_return_value || self->out_point_ids.size == (size_t)self->num_points_)
+__CPROVER_ensures(!(__CPROVER_return_value && ghost_k >= 0 && ghost_k < self->num_points_) || self->out_point_ids.data[ghost_k] == (uint32_t)ghost_k)
+__CPROVER_assigns(self->out_point_ids.size, __CPROVER_object_whole(self->out_point_ids.data));
+
 /* in-place array zig-zag conversion: every element replaced by its signed value, nothing outside [0, in_values) touched */
 void ConvertSymbolsToSignedInts_inplace(const uint32_t *in, int in_values, int32_t *out)
 __CPROVER_requires(in_values >= 0 && (size_t)in_values <= SIAD_MAXVALS && __CPROVER_is_fresh(out, (size_t)(in_values ? in_values : 1) * 4) && __CPROVER_pointer_equals(in, (const uint32_t *)out))
@@ -57,6 +71,7 @@ void SIAD_PreparePortableAttribute(struct SIAD *self, int num_entries, int num_c
 int32_t *SIAD_GetPortableAttributeData(struct SIAD *self) { return self->port_entries == 0 ? (int32_t *)0 : self->port_data; }
 size_t SIAD_portable_data_size(struct SIAD *self) { return self->port_bytes; }
 void h_enf_SIAD_DecodeIntegerValues(void) { GHOSTS(); struct SIAD *s; const struct vec_pid *p; struct DecoderBuffer *b; SIAD_DecodeIntegerValues(s, p, b); HARNESS_END(); }
+void h_enf_LinearSequencer_GenerateSequenceInternal(void) { GHOSTS(); struct LinearSequencer *q; LinearSequencer_GenerateSequenceInternal(q); HARNESS_END(); }
 void h_enf_ConvertSymbolsToSignedInts_inplace(void) { GHOSTS(); const uint32_t *in; int n; int32_t *out; ConvertSymbolsToSignedInts_inplace(in, n, out); HARNESS_END(); }
 /* rawvalues.rt (C04/C05; BOUNDED stand-in: at most 3 values, every value): the raw attribute path stores `0`, the byte width and then every symbol
  * with that many low-order bytes; the width is 1 + msb(OR of all symbols)/8 (frozen layout: the smallest width that holds every symbol, 1..4), so a
